@@ -90,11 +90,11 @@ InInitAfterClassAttr == <<L("class", "none", "f", 0), L("assign", "plain", "f", 
 CfgDomain == {Dom("cfg", Alphabet, MaxLen, MaxDepth, Names)}
 \* the quick tier drops a few variants from the longer domains (each of them still occurs in "all")
 QuickDomains ==
-  {Dom("all", AlphaAll, 2, 1, {"f", "g"}), Dom("bind", AlphaBind, 3, 2, {"f", "g"}),
+  {Dom("all", AlphaAll, 2, 1, {"f", "g"}), Dom("bind", AlphaBind \ {<<"import", "from">>}, 3, 2, {"f", "g"}),
    Dom("cond", AlphaCond \ {<<"with", "-">>, <<"import", "from">>}, 4, 2, {"f"}),
    Dom("guard", AlphaGuard, 3, 2, {"f"}),
    Dom("guard-deep", AlphaGuardDeep \ {<<"with", "-">>, <<"else", "elif">>}, 4, 2, {"f"}),
-   Dom("deco", AlphaDeco \ {<<"def", "classmethod">>, <<"def", "cache">>, <<"def", "propabstract">>, <<"def", "asyncabstract">>, <<"def", "asynccache">>}, 3, 2, {"f"}),
+   Dom("deco", AlphaDeco \ {<<"def", "classmethod">>, <<"def", "cache">>, <<"def", "propabstract">>, <<"def", "asyncabstract">>, <<"def", "asynccache">>, <<"def", "lru_cache">>, <<"def", "unknown">>}, 3, 2, {"f"}),
    Dom("imp", AlphaImp \ {<<"class", "none">>, <<"try", "-">>, <<"except", "-">>, <<"import", "multi">>, <<"import", "frommulti">>}, 3, 2, {"f"}),
    Dom("attr", AlphaAttr \ {<<"assign", "classvar">>, <<"assign", "selfann">>}, 3, 2, {"f", "g"}),
    DomP("inst", InInit, AlphaInst \ {<<"class", "none">>, <<"init", "-">>}, 5, 3, {"f"}),
@@ -111,7 +111,7 @@ ThoroughDomainsB ==
    DomP("inst2", InInitAfterClassAttr, AlphaInst \ {<<"class", "none">>, <<"init", "-">>}, 7, 3, {"f"}),
    DomP("instnm", InInit, AlphaNoMember, 6, 3, {"f", "g"})}
 \* small domains in which each known defect shows (Strict = TRUE)
-DefectDomains == {Dom("smoke", AlphaSmoke, 3, 2, {"f"}), Dom("bind", AlphaBind, 3, 2, {"f"})}
+DefectDomains == {Dom("smoke", AlphaSmoke, 3, 2, {"f"}), Dom("bind", AlphaBind \ {<<"import", "multi">>}, 3, 2, {"f"})}
 NameOrder == <<"f", "g", "h">>
 Other(n) == IF n = "f" THEN "g" ELSE "f"        \* second target of  n = other = 1
 
